@@ -151,6 +151,85 @@ theorem needle_limit_complete (B : Nat) (hB : 1 ≤ B) (f : PyFile) (needle : By
         (by simpa [startPos] using hsi) (Or.inr hlim)
       rw [h] at this; exact this
 
+/-! ### the EXACT result under a limit, as a function of the buffer size
+
+`max_offset` is compared with two different quantities (utils.py 178 and 187): the file offset `pos` of a block START
+(`pos > max_offset` ends the scan before the block is read) and the index `p` of a hit in the search buffer
+`saved + block` (`p > max_offset` ends the scan of that buffer) — `p` is NOT a file offset. With `s0` the start position,
+`n = |needle|`, `B = io.DEFAULT_BUFFER_SIZE`, an occurrence at file offset `o ≥ s0` is looked for in block
+`j = blockOf B n s0 o = (o + n - 1 - s0) / B` (the block holding its last byte), whose buffer begins at file offset
+`bufStart B n s0 j = s0 + (j*B - (n-1))`; it is reported iff `s0 + j*B ≤ max_offset` and `o - bufStart … ≤ max_offset`
+(`limitKeeps`). -/
+
+/-- **Exact result under a limit.** For every buffer size `B ≥ 1`, content, file kind, non-empty needle, start and
+`max_offset > 0`: the reported list is exactly the occurrences `o ≥ start` with `limitKeeps B |needle| start max_offset o`,
+ascending, and the file is left at `limitEnd` (the end of the last block that was read). -/
+theorem needle_limit_exact (B : Nat) (hB : 1 ≤ B) (f : PyFile) (needle : Bytes) (hn : needle ≠ [])
+    (start : Option Int) (hs : ∀ s, start = some s → 0 ≤ s) (maxOff : Nat) (hm : 0 < maxOff) :
+    iterFindNeedle B f needle start maxOff
+      = .ok ((((occ f.data needle).filter (fun o => startPos f start ≤ o)).filter
+                (limitKeeps B needle.length (startPos f start) maxOff)).map Int.ofNat,
+             { f with pos := limitEnd B maxOff f.data.length (startPos f start) }) := by
+  have hk : ∀ s0, limitKeeps B needle.length s0 maxOff = keepRel B needle.length maxOff s0 0 :=
+    fun s0 => funext (limitKeeps_eq_keepRel B needle.length s0 maxOff)
+  have hn' := List.length_pos_iff.mpr hn
+  have key : ∀ g : PyFile, needleLoop B needle maxOff g []
+      = ((((occ g.data needle).filter (fun o => g.pos ≤ o)).filter (limitKeeps B needle.length g.pos maxOff)).map Int.ofNat,
+          { g with pos := limitEnd B maxOff g.data.length g.pos }) := by
+    intro g
+    apply Prod.ext
+    · rw [needleLoop_limit B hB needle hn maxOff hm g [] g.pos rfl (by simp) hn', hk]; rfl
+    · exact needleLoop_limit_file B hB needle maxOff hm g []
+  unfold iterFindNeedle
+  cases start with
+  | none => simp only [startPos]; rw [key f]; rfl
+  | some s =>
+    have h0 := hs s rfl
+    obtain ⟨n, rfl⟩ : ∃ n : Nat, s = n := ⟨s.toNat, by omega⟩
+    simp only [PyFile.seekSet_ok, startPos, Int.toNat_natCast]
+    rw [key]; rfl
+
+/-- which offsets are reported under a limit (membership form of `needle_limit_exact`) -/
+theorem needle_limit_reported_iff (B : Nat) (hB : 1 ≤ B) (f : PyFile) (needle : Bytes) (hn : needle ≠ [])
+    (start : Option Int) (hs : ∀ s, start = some s → 0 ≤ s) (maxOff : Nat) (hm : 0 < maxOff) (r : List Int) (f' : PyFile)
+    (h : iterFindNeedle B f needle start maxOff = .ok (r, f')) (o : Nat) :
+    (o : Int) ∈ r ↔
+      o ∈ occ f.data needle ∧ startPos f start ≤ o ∧
+      startPos f start + blockOf B needle.length (startPos f start) o * B ≤ maxOff ∧
+      o - bufStart B needle.length (startPos f start) (blockOf B needle.length (startPos f start) o) ≤ maxOff := by
+  rw [needle_limit_exact B hB f needle hn start hs maxOff hm] at h
+  injection h with h
+  injection h with h _
+  subst h
+  simp only [List.mem_map, List.mem_filter, decide_eq_true_eq, limitKeeps, Bool.and_eq_true]
+  constructor
+  · rintro ⟨i, ⟨⟨hi, hsi⟩, hb, hp⟩, hio⟩
+    have : i = o := Int.ofNat.inj hio
+    subst this
+    exact ⟨hi, hsi, hb, hp⟩
+  · rintro ⟨hi, hsi, hb, hp⟩
+    exact ⟨o, ⟨⟨hi, hsi⟩, hb, hp⟩, rfl⟩
+
+/-- an occurrence lying entirely before the limit passes both tests, whatever `B` (so `needle_limit_complete` is a
+corollary of `needle_limit_exact`) -/
+theorem limitKeeps_before (B n s0 m o : Nat) (hs : s0 ≤ o) (hlim : o + n ≤ m) (hn : 0 < n) :
+    limitKeeps B n s0 m o = true := by
+  unfold limitKeeps blockOf bufStart
+  have := Nat.div_mul_le_self (o + n - 1 - s0) B
+  simp only [Bool.and_eq_true, decide_eq_true_eq]
+  omega
+
+/-- a limit beyond `B + |needle|` never cuts inside a buffer: then ONLY the block start is tested, and every occurrence
+whose last byte lies in a block that starts at or before `max_offset` is reported — up to `B - 1` bytes past the limit -/
+theorem limitKeeps_large (B n s0 m o : Nat) (hB : 1 ≤ B) (hn : 0 < n) (hs : s0 ≤ o) (hbig : B + n ≤ m + 2) :
+    limitKeeps B n s0 m o = decide (s0 + blockOf B n s0 o * B ≤ m) := by
+  unfold limitKeeps bufStart blockOf
+  have h1 := Nat.div_mul_le_self (o + n - 1 - s0) B
+  have h2 := Nat.lt_div_mul_add (a := o + n - 1 - s0) (b := B) (by omega)
+  generalize (o + n - 1 - s0) / B * B = t at *
+  have : o - (s0 + (t - (n - 1))) ≤ m := by omega
+  simp only [this, decide_true, Bool.and_true]
+
 /-! ### ArtifactKit scanner -/
 
 /-- `iter_artifactkit_payloads` reports exactly the records of `artifactHits`: the offsets `pos ≥ start`
@@ -228,6 +307,39 @@ example : iterFindNeedle 8192 ⟨[1, 0x61, 0x62, 0x63], 0, .osFile⟩ [0, 1] non
 example : iterFindNeedle 1 ⟨[7, 7, 7, 7], 0, .bytesIO⟩ [7, 7] (some 1) 0
     = .ok ([1, 2], ⟨[7, 7, 7, 7], 4, .bytesIO⟩) := by
   rw [needle_exact 1 (by omega) _ _ (by simp) (some 1) (by intro s h; cases h; omega)]
+  rfl
+
+/-- the limit depends on the buffer size: five `01` bytes, `max_offset = 2`. With `B = 4` offsets 0..2 are reported; with
+`B = 2` the block that starts at 2 is read completely and offset 3 (beyond the limit) is reported as well. -/
+example : iterFindNeedle 4 ⟨[1, 1, 1, 1, 1], 0, .bytesIO⟩ [1] (some 0) 2 = .ok ([0, 1, 2], ⟨[1, 1, 1, 1, 1], 4, .bytesIO⟩) := by
+  rw [needle_limit_exact 4 (by omega) _ _ (by simp) (some 0) (by intro s h; cases h; omega) 2 (by omega)]
+  rfl
+
+example : iterFindNeedle 2 ⟨[1, 1, 1, 1, 1], 0, .bytesIO⟩ [1] (some 0) 2 = .ok ([0, 1, 2, 3], ⟨[1, 1, 1, 1, 1], 4, .bytesIO⟩) := by
+  rw [needle_limit_exact 2 (by omega) _ _ (by simp) (some 0) (by intro s h; cases h; omega) 2 (by omega)]
+  rfl
+
+/-- the buffer-index test is relative to the start: from `start_offset = 3` with `max_offset = 3` the occurrences at file
+offsets 4 and 6 (both beyond 3) are reported (indices 1 and 3 in the buffer), while from `start_offset = 4` (`> max_offset`)
+nothing is. -/
+example : iterFindNeedle 8192 ⟨[1, 0, 0, 0, 1, 0, 1, 1], 0, .bytesIO⟩ [1] (some 3) 3
+    = .ok ([4, 6], ⟨[1, 0, 0, 0, 1, 0, 1, 1], 8, .bytesIO⟩) := by
+  rw [needle_limit_exact 8192 (by omega) _ _ (by simp) (some 3) (by intro s h; cases h; omega) 3 (by omega)]
+  rfl
+
+example : iterFindNeedle 8192 ⟨[1, 0, 0, 0, 1, 0, 1, 1], 0, .bytesIO⟩ [1] (some 4) 3
+    = .ok ([], ⟨[1, 0, 0, 0, 1, 0, 1, 1], 4, .bytesIO⟩) := by
+  rw [needle_limit_exact 8192 (by omega) _ _ (by simp) (some 4) (by intro s h; cases h; omega) 3 (by omega)]
+  rfl
+
+/-- an occurrence that STARTS before the limit but ends in a block starting after it is not reported (`B = 4`, needle
+`01 01` at offset 3, `max_offset = 3`); with `B = 5` the same occurrence is reported. -/
+example : iterFindNeedle 4 ⟨[0, 0, 0, 1, 1, 0], 0, .bytesIO⟩ [1, 1] (some 0) 3 = .ok ([], ⟨[0, 0, 0, 1, 1, 0], 4, .bytesIO⟩) := by
+  rw [needle_limit_exact 4 (by omega) _ _ (by simp) (some 0) (by intro s h; cases h; omega) 3 (by omega)]
+  rfl
+
+example : iterFindNeedle 5 ⟨[0, 0, 0, 1, 1, 0], 0, .bytesIO⟩ [1, 1] (some 0) 3 = .ok ([3], ⟨[0, 0, 0, 1, 1, 0], 5, .bytesIO⟩) := by
+  rw [needle_limit_exact 5 (by omega) _ _ (by simp) (some 0) (by intro s h; cases h; omega) 3 (by omega)]
   rfl
 
 example : occ [0, 1, 0, 1, 0] [1, 0] = [1, 3] := by decide
